@@ -63,7 +63,7 @@ func execRect(r *rand.Rand, e *RectEv) {
 	p0 := clonePaths(e.Paths)
 	res, out := callRect(e)
 	e.Res, e.Out, e.Ok = nz(res), out, true
-	e.ArgsSame = equalPaths(p0, e.Paths)
+	e.ArgsSame = equalPaths(p0, e.Paths) && argsUnchanged()
 	res2, _ := callRect(e)
 	e.Res2Same = equalPaths(res, res2)
 	rp := Paths{rectPathOf(e.Rect)}
